@@ -60,7 +60,7 @@ func (w *world) emit(line, ans string) {
 }
 
 // traceSection: sections whose request lines carry an observed outcome and whose answer is `accept`.
-var traceSection = map[string]bool{"vr": true, "mt": true, "pt": true, "hw": true, "hc": true, "lk": true, "lm": true, "uu": true, "vd": true}
+var traceSection = map[string]bool{"vr": true, "mt": true, "pt": true, "hw": true, "hc": true, "lk": true, "lm": true, "uu": true, "vd": true, "vy": true}
 
 // run executes op lines from w.pos on while cont accepts the next line.
 func (w *world) run(cont func(op string) bool) {
@@ -131,6 +131,8 @@ func (w *world) exec(op string) (string, string) {
 			if ans = w.execVC(f[1:]); ans == "" {
 				line = "" // `vc` has emitted its own lines
 			}
+		case "vy":
+			line, ans = w.execVY(f[1:])
 		case "vx":
 			if ans = w.execVX(f[1:]); ans == "" {
 				line = "" // `vx` has emitted its own lines
@@ -249,7 +251,7 @@ func main() {
 	r.MaxSamples = 6
 	r.Rule = "distinct by sha256 of the request lines; non-trivial = vn: a value used by two listener generations and a Wait answered; " +
 		"vr: forced schedule with >= 2 events; pr: >= 2 callbacks; ev: >= 2 hooks and >= 2 triggers; it: a Hook/Unhook executed inside a callback; om: a Set/Delete/Clear executed inside a ForEach consumer; " +
-		"mt/pt/hw/hc/lk/lm/uu/vd/vc/vx: every stress run"
+		"mt/pt/hw/hc/lk/lm/uu/vd/vy/vc/vx: every stress run"
 	if lines := r.ReplayLines(); lines != nil {
 		runAll(r, []uint64{0}, [][]string{lines}, 1)
 		r.Finish()
